@@ -391,21 +391,21 @@ func init() {
 		"math.Max":   nil,
 		"math.Min":   nil,
 
-		"sync.(*Mutex).Lock":      mutexLock,
-		"sync.(*Mutex).Unlock":    mutexUnlock,
-		"sync.(*Mutex).TryLock":   mutexTryLock,
-		"sync.(*RWMutex).Lock":    rwLock,
-		"sync.(*RWMutex).Unlock":  rwUnlock,
-		"sync.(*RWMutex).RLock":   rwRLock,
-		"sync.(*RWMutex).RUnlock": rwRUnlock,
-		"sync.(*WaitGroup).Add":   wgAdd,
-		"sync.(*WaitGroup).Done":  wgDone,
-		"sync.(*WaitGroup).Wait":  wgWait,
-		"sync.(*Pool).Get":        poolGet,
-		"sync.(*Pool).Put":        noop,
-		"sync.(*Once).Do":         onceDo,
-		"sync.(*Cond).Broadcast":  noop,
-		"sync.(*Cond).Signal":     noop,
+		"(*sync.Mutex).Lock":      mutexLock,
+		"(*sync.Mutex).Unlock":    mutexUnlock,
+		"(*sync.Mutex).TryLock":   mutexTryLock,
+		"(*sync.RWMutex).Lock":    rwLock,
+		"(*sync.RWMutex).Unlock":  rwUnlock,
+		"(*sync.RWMutex).RLock":   rwRLock,
+		"(*sync.RWMutex).RUnlock": rwRUnlock,
+		"(*sync.WaitGroup).Add":   wgAdd,
+		"(*sync.WaitGroup).Done":  wgDone,
+		"(*sync.WaitGroup).Wait":  wgWait,
+		"(*sync.Pool).Get":        poolGet,
+		"(*sync.Pool).Put":        noop,
+		"(*sync.Once).Do":         onceDo,
+		"(*sync.Cond).Broadcast":  noop,
+		"(*sync.Cond).Signal":     noop,
 
 		"sync/atomic.LoadInt32":   atomicLoad,
 		"sync/atomic.LoadInt64":   atomicLoad,
@@ -441,7 +441,6 @@ func init() {
 		"sync/atomic.CompareAndSwapPointer": atomicCAS,
 
 		"runtime.GC":           noop,
-		"runtime.Gosched":      noop,
 		"runtime.KeepAlive":    noop,
 		"runtime.SetFinalizer": noop,
 		"runtime.GOMAXPROCS": func(ex *Exec, fr *frame, fn *ssa.Function, a []Value, s ssa.Instruction) Value {
@@ -486,10 +485,32 @@ func init() {
 			return Struct{w, e, (*Value)(nil)}
 		},
 		"time.Since": func(ex *Exec, fr *frame, fn *ssa.Function, a []Value, s ssa.Instruction) Value {
+			if ex.job != nil && ex.job.Meta["clock"] == "zero" {
+				// durations only feed statistics in the code under test; concretised on request
+				return sym.Const(64, 0)
+			}
 			ex.nTime++
 			return ex.ctx.Var(fmt.Sprintf("time.since#%d", ex.nTime), 64)
 		},
-		"time.Sleep": noop,
+		"time.Sleep": func(ex *Exec, fr *frame, fn *ssa.Function, a []Value, s ssa.Instruction) Value {
+			if ex.schedOn() {
+				ex.yield()
+			}
+			return nil
+		},
+		"time.After": func(ex *Exec, fr *frame, fn *ssa.Function, a []Value, s ssa.Instruction) Value {
+			// a timer that has already fired (one legal timing)
+			ex.nTime++
+			w := ex.ctx.Var(fmt.Sprintf("time.wall#%d", ex.nTime), 64)
+			e := ex.ctx.Var(fmt.Sprintf("time.ext#%d", ex.nTime), 64)
+			return &Chan{Cap: 1, Buf: []Value{Struct{w, e, (*Value)(nil)}}, ElemT: fn.Signature.Results().At(0).Type().Underlying().(*types.Chan).Elem()}
+		},
+		"runtime.Gosched": func(ex *Exec, fr *frame, fn *ssa.Function, a []Value, s ssa.Instruction) Value {
+			if ex.schedOn() {
+				ex.yield()
+			}
+			return nil
+		},
 
 		"sort.Slice":       sortSlice,
 		"sort.SliceStable": sortSlice,
@@ -598,27 +619,63 @@ func mutexWord(ex *Exec, v Value) *Value {
 	if p == nil {
 		panic(&targetPanic{v: Str{S: "nil mutex"}, runtime: true, msg: "runtime error: invalid memory address or nil pointer dereference (nil mutex)"})
 	}
-	// descend to the first scalar cell
-	for {
-		switch s := (*p).(type) {
-		case Struct:
-			p = &s[0]
-		case Array:
-			p = &s[0]
-		default:
-			return p
+	// descend to the first scalar cell (skipping empty marker structs such as noCopy)
+	if q := firstScalar(p); q != nil {
+		return q
+	}
+	ex.unsupported("sync object without a state word")
+	return nil
+}
+
+func firstScalar(p *Value) *Value {
+	switch s := (*p).(type) {
+	case Struct:
+		for i := range s {
+			if q := firstScalar(&s[i]); q != nil {
+				return q
+			}
 		}
+		return nil
+	case Array:
+		for i := range s {
+			if q := firstScalar(&s[i]); q != nil {
+				return q
+			}
+		}
+		return nil
+	case *sym.Term:
+		return p
+	}
+	return nil
+}
+
+func (ex *Exec) syncPoint(fr *frame, s ssa.Instruction, what string) {
+	if ex.schedOn() {
+		ex.preemptPoint(what + " at " + ex.instrPos(fr, s))
+	}
+}
+
+func (ex *Exec) atomicPoint(fr *frame, s ssa.Instruction) {
+	if ex.schedOn() && ex.job != nil && ex.job.Meta["preemptatomics"] == "1" {
+		ex.preemptPoint("atomic at " + ex.instrPos(fr, s))
 	}
 }
 
 func mutexLock(ex *Exec, fr *frame, fn *ssa.Function, a []Value, s ssa.Instruction) Value {
+	ex.syncPoint(fr, s, "Mutex.Lock")
 	w := mutexWord(ex, a[0])
 	t := (*w).(*sym.Term)
 	if !t.IsConst() {
 		ex.unsupported("symbolic mutex state")
 	}
 	if t.Val != 0 {
-		panic(pathEnd{endViolation, "self-deadlock: Lock of a mutex already held, at " + ex.instrPos(fr, s)})
+		if ex.schedOn() {
+			// held by another goroutine: wait for it
+			ex.block(func() bool { return (*w).(*sym.Term).Val == 0 }, "Mutex.Lock at "+ex.instrPos(fr, s))
+			t = (*w).(*sym.Term)
+		} else {
+			panic(pathEnd{endViolation, "self-deadlock: Lock of a mutex already held, at " + ex.instrPos(fr, s)})
+		}
 	}
 	ex.setCell(w, sym.Const(t.W, 1))
 	return nil
@@ -635,6 +692,7 @@ func mutexTryLock(ex *Exec, fr *frame, fn *ssa.Function, a []Value, s ssa.Instru
 }
 
 func mutexUnlock(ex *Exec, fr *frame, fn *ssa.Function, a []Value, s ssa.Instruction) Value {
+	ex.syncPoint(fr, s, "Mutex.Unlock")
 	w := mutexWord(ex, a[0])
 	t := (*w).(*sym.Term)
 	if t.Val == 0 {
@@ -646,16 +704,23 @@ func mutexUnlock(ex *Exec, fr *frame, fn *ssa.Function, a []Value, s ssa.Instruc
 
 // RWMutex: first word of the embedded Mutex w: 0 free, 1 write-locked, 1000+n readers
 func rwLock(ex *Exec, fr *frame, fn *ssa.Function, a []Value, s ssa.Instruction) Value {
+	ex.syncPoint(fr, s, "RWMutex.Lock")
 	w := mutexWord(ex, a[0])
 	t := (*w).(*sym.Term)
 	if t.Val != 0 {
-		panic(pathEnd{endViolation, "self-deadlock: RWMutex.Lock while held, at " + ex.instrPos(fr, s)})
+		if ex.schedOn() {
+			ex.block(func() bool { return (*w).(*sym.Term).Val == 0 }, "RWMutex.Lock at "+ex.instrPos(fr, s))
+			t = (*w).(*sym.Term)
+		} else {
+			panic(pathEnd{endViolation, "self-deadlock: RWMutex.Lock while held, at " + ex.instrPos(fr, s)})
+		}
 	}
 	ex.setCell(w, sym.Const(t.W, 1))
 	return nil
 }
 
 func rwUnlock(ex *Exec, fr *frame, fn *ssa.Function, a []Value, s ssa.Instruction) Value {
+	ex.syncPoint(fr, s, "RWMutex.Unlock")
 	w := mutexWord(ex, a[0])
 	t := (*w).(*sym.Term)
 	if t.Val != 1 {
@@ -666,10 +731,16 @@ func rwUnlock(ex *Exec, fr *frame, fn *ssa.Function, a []Value, s ssa.Instructio
 }
 
 func rwRLock(ex *Exec, fr *frame, fn *ssa.Function, a []Value, s ssa.Instruction) Value {
+	ex.syncPoint(fr, s, "RWMutex.RLock")
 	w := mutexWord(ex, a[0])
 	t := (*w).(*sym.Term)
 	if t.Val == 1 {
-		panic(pathEnd{endViolation, "self-deadlock: RWMutex.RLock while write-locked, at " + ex.instrPos(fr, s)})
+		if ex.schedOn() {
+			ex.block(func() bool { return (*w).(*sym.Term).Val != 1 }, "RWMutex.RLock at "+ex.instrPos(fr, s))
+			t = (*w).(*sym.Term)
+		} else {
+			panic(pathEnd{endViolation, "self-deadlock: RWMutex.RLock while write-locked, at " + ex.instrPos(fr, s)})
+		}
 	}
 	if t.Val == 0 {
 		ex.setCell(w, sym.Const(t.W, 1001))
@@ -680,6 +751,7 @@ func rwRLock(ex *Exec, fr *frame, fn *ssa.Function, a []Value, s ssa.Instruction
 }
 
 func rwRUnlock(ex *Exec, fr *frame, fn *ssa.Function, a []Value, s ssa.Instruction) Value {
+	ex.syncPoint(fr, s, "RWMutex.RUnlock")
 	w := mutexWord(ex, a[0])
 	t := (*w).(*sym.Term)
 	if t.Val < 1001 {
@@ -695,6 +767,7 @@ func rwRUnlock(ex *Exec, fr *frame, fn *ssa.Function, a []Value, s ssa.Instructi
 
 // WaitGroup counter kept in ex.wg keyed by the WaitGroup's address.
 func wgAdd(ex *Exec, fr *frame, fn *ssa.Function, a []Value, s ssa.Instruction) Value {
+	ex.syncPoint(fr, s, "WaitGroup.Add/Done")
 	p := a[0].(*Value)
 	d := a[1].(*sym.Term)
 	if !d.IsConst() {
@@ -714,8 +787,13 @@ func wgDone(ex *Exec, fr *frame, fn *ssa.Function, a []Value, s ssa.Instruction)
 }
 
 func wgWait(ex *Exec, fr *frame, fn *ssa.Function, a []Value, s ssa.Instruction) Value {
+	ex.syncPoint(fr, s, "WaitGroup.Wait")
 	p := a[0].(*Value)
 	if ex.wg[p] > 0 {
+		if ex.schedOn() {
+			ex.block(func() bool { return ex.wg[p] <= 0 }, "WaitGroup.Wait at "+ex.instrPos(fr, s))
+			return nil
+		}
 		panic(pathEnd{endInconclusive, "would block: WaitGroup.Wait with positive counter at " + ex.instrPos(fr, s)})
 	}
 	return nil
@@ -736,25 +814,37 @@ func poolGet(ex *Exec, fr *frame, fn *ssa.Function, a []Value, s ssa.Instruction
 }
 
 func onceDo(ex *Exec, fr *frame, fn *ssa.Function, a []Value, s ssa.Instruction) Value {
+	ex.syncPoint(fr, s, "Once.Do")
 	w := mutexWord(ex, a[0]) // Once{done atomic.Uint32, m Mutex}: first scalar is done
 	t := (*w).(*sym.Term)
-	if t.Val == 0 {
-		ex.setCell(w, sym.Const(t.W, 1))
+	switch t.Val {
+	case 0:
+		// 2 = f is running; a concurrent Do waits for it like the real Once
+		ex.setCell(w, sym.Const(t.W, 2))
 		ex.call(fr, a[1], nil, s)
+		ex.setCell(w, sym.Const(t.W, 1))
+	case 2:
+		if !ex.schedOn() {
+			panic(pathEnd{endViolation, "self-deadlock: Once.Do called from inside its own function, at " + ex.instrPos(fr, s)})
+		}
+		ex.block(func() bool { return (*w).(*sym.Term).Val == 1 }, "Once.Do at "+ex.instrPos(fr, s))
 	}
 	return nil
 }
 
 func atomicLoad(ex *Exec, fr *frame, fn *ssa.Function, a []Value, s ssa.Instruction) Value {
+	ex.atomicPoint(fr, s)
 	return ex.load(fr, s, a[0])
 }
 
 func atomicStore(ex *Exec, fr *frame, fn *ssa.Function, a []Value, s ssa.Instruction) Value {
+	ex.atomicPoint(fr, s)
 	ex.store(fr, s, a[0], a[1])
 	return nil
 }
 
 func atomicAdd(ex *Exec, fr *frame, fn *ssa.Function, a []Value, s ssa.Instruction) Value {
+	ex.atomicPoint(fr, s)
 	old := ex.load(fr, s, a[0]).(*sym.Term)
 	nv := ex.ctx.Bin(sym.OAdd, old, a[1].(*sym.Term))
 	ex.store(fr, s, a[0], nv)
@@ -762,12 +852,14 @@ func atomicAdd(ex *Exec, fr *frame, fn *ssa.Function, a []Value, s ssa.Instructi
 }
 
 func atomicSwap(ex *Exec, fr *frame, fn *ssa.Function, a []Value, s ssa.Instruction) Value {
+	ex.atomicPoint(fr, s)
 	old := ex.load(fr, s, a[0])
 	ex.store(fr, s, a[0], a[1])
 	return old
 }
 
 func atomicCAS(ex *Exec, fr *frame, fn *ssa.Function, a []Value, s ssa.Instruction) Value {
+	ex.atomicPoint(fr, s)
 	old := ex.load(fr, s, a[0])
 	eq := ex.equals(nil, old, a[1])
 	if ex.branch(eq, s, fr) {
